@@ -87,6 +87,10 @@ def _instance(rng, layout):
             if o["type"] == "mapper":
                 o["reg"] = True
         if len(inst["u"]) >= 4:
+            # configuration and memory layout of the preloaded arrays are part of the instance: the unconstrained solver next to
+            # the production default (positive-only), C-ordered next to Fortran-ordered preloads (equal values either way)
+            inst["solver"] = ["default", "unconstrained", "default", "unconstrained"][int(rng.integers(0, 4))]
+            inst["memory"] = ["C", "F", "F", "C"][int(rng.integers(0, 4))]
             return inst
 
 
@@ -129,15 +133,26 @@ def execute(beh, inst, formalism, reuse_objects, ref_formalism=None):
     single = len(inst["objs"]) == 1
     mk = makeup_of(_layout_of(inst), formalism)
     ds, objs, skw = ic.build(inst)
-    st = lambda f=formalism: aa.SettingsInversion(use_w_tilde=(f == "w_tilde"), **skw)
+    extra = {"use_positive_only_solver": False} if inst.get("solver") == "unconstrained" else {}
+    st = lambda f=formalism: aa.SettingsInversion(use_w_tilde=(f == "w_tilde"), **extra, **skw)
+    global _LAYOUT
+    _LAYOUT = np.asfortranarray if inst.get("memory") == "F" else (lambda a: a)
     try:
         return _execute2(beh, inst, formalism, reuse_objects, ref_formalism, aa, single, mk, ds, objs, st)
     except _ReferenceRaised as e:
+        if extra and "InversionException" in str(e):
+            # the unconstrained solver refuses some well-posed systems (its degenerate-solution check, C05's business): such an
+            # instance is replayed with the production default solver instead
+            inst2 = dict(inst, solver="default")
+            return execute(beh, inst2, formalism, reuse_objects, ref_formalism)
         # the inversion WITHOUT preloads raises on a well-posed instance of the family: a verdict (rejected read), not a
         # machinery failure
         return [{"a": "Preloads", "filled": [], "mk": mk, "ref": ref_formalism, "raised": False, "present": []}, {"a": "NewInversion"},
                 {"a": "Read", "q": "reconstruction", "formalism": formalism, "single": single, "raised": True,
                  "err": f"inversion without preloads raised {e}", "k": 0, "pre_k": 0, "pre_ok": True, "sec_changed": [], "cached": [], "filled": []}]
+
+
+_LAYOUT = lambda a: a  # memory layout given to the preloaded arrays of the behaviour being executed
 
 
 class _ReferenceRaised(Exception):
@@ -179,13 +194,13 @@ def _execute2(beh, inst, formalism, reuse_objects, ref_formalism, aa, single, mk
                 kw["w_tilde"] = ds.w_tilde
                 kw["use_w_tilde"] = formalism == "w_tilde"
             if "curvature_matrix" in filled:
-                kw["curvature_matrix"] = fresh["curvature_matrix"].copy()
+                kw["curvature_matrix"] = _LAYOUT(fresh["curvature_matrix"].copy())
             if "regularization_matrix" in filled:
-                kw["regularization_matrix"] = fresh["regularization_matrix"].copy()
+                kw["regularization_matrix"] = _LAYOUT(fresh["regularization_matrix"].copy())
             if "log_det_regularization_matrix_term" in filled:
                 kw["log_det_regularization_matrix_term"] = float(fresh["log_det_regularization_matrix_term"])
             if "operated_mapping_matrix" in filled:
-                kw["operated_mapping_matrix"] = fresh["operated_mapping_matrix"].copy()
+                kw["operated_mapping_matrix"] = _LAYOUT(fresh["operated_mapping_matrix"].copy())
             if any(s in SEC_ATTR for s in filled):
                 # the secondary slots hold the very objects a reference inversion on the identical dataset and linear objects
                 # delivers (Preloads.set_curvature_matrix / set_linear_func_inversion_dicts assign them without copying)
